@@ -1,20 +1,104 @@
 //! C18 — client futures are Send and usable from a multi-threaded runtime.
-use crate::common::Tier;
+use crate::common::*;
+use crate::rustc::Externs;
 use crate::soap::{self, Aspect, Cfg};
+use serde_json::json;
+
+/// Appended to the helper source (`helpers` is private to the file it sits in): a request envelope
+/// that is Send but not Sync (a Cell inside), handed to both helper functions; the futures must be
+/// Send, because the statement says "whenever the request envelope is".
+const SEND_ONLY_ENVELOPE_PROBE: &str = r#"
+// ---- appended by the C18 check ----
+pub struct Counted<E> {
+    pub envelope: E,
+    pub serialized: std::cell::Cell<u32>,
+}
+impl<E: yaserde::YaSerialize> yaserde::YaSerialize for Counted<E> {
+    fn serialize<W: std::io::Write>(&self, writer: &mut yaserde::ser::Serializer<W>) -> Result<(), String> {
+        self.serialized.set(self.serialized.get() + 1);
+        self.envelope.serialize(writer)
+    }
+    fn serialize_attributes(
+        &self,
+        attributes: Vec<xml::attribute::OwnedAttribute>,
+        namespace: xml::namespace::Namespace,
+    ) -> Result<(Vec<xml::attribute::OwnedAttribute>, xml::namespace::Namespace), String> {
+        self.envelope.serialize_attributes(attributes, namespace)
+    }
+}
+impl<E: restrictions::CheckRestrictions> restrictions::CheckRestrictions for Counted<E> {
+    fn check_restrictions(&self, restrictions: Option<std::rc::Rc<restrictions::Restrictions>>) -> error::SoapResult<()> {
+        self.envelope.check_restrictions(restrictions)
+    }
+}
+#[derive(Debug, Default, yaserde_derive::YaSerialize, yaserde_derive::YaDeserialize)]
+pub struct C18Env {
+    #[yaserde(text = true)]
+    pub v: String,
+}
+impl restrictions::CheckRestrictions for C18Env {
+    fn check_restrictions(&self, _: Option<std::rc::Rc<restrictions::Restrictions>>) -> error::SoapResult<()> {
+        Ok(())
+    }
+}
+fn c18_counted() -> Counted<C18Env> {
+    Counted { envelope: C18Env::default(), serialized: Default::default() }
+}
+fn c18_assert_send<T: Send>(_: T) {}
+fn c18_send_only<T: Send>() {}
+pub fn c18_probe(client: &'static reqwest::Client) {
+    c18_send_only::<Counted<C18Env>>();
+    c18_assert_send(helpers::send_soap_request_using_client::<_, C18Env, &str, &str>(client, "http://127.0.0.1:9/x", None, c18_counted()));
+    c18_assert_send(helpers::send_soap_request::<_, C18Env, String, String>("http://127.0.0.1:9/x", None, c18_counted()));
+    c18_assert_send(helpers::send_soap_request_using_client::<_, helpers::NoResponse, &str, &str>(client, "http://127.0.0.1:9/x", None, c18_counted()));
+}
+"#;
+
+/// The helper functions with a Send-only envelope: one compile, the verdict is rustc's.
+fn helper_probe(ev: &mut Evidence, findings: &Findings) {
+    let Ok(ex) = Externs::discover() else { return };
+    let Ok(helper) = std::fs::read_to_string("/repo/zeep-lib/src/model/helpers_content.rs") else {
+        ev.assume("the helper source could not be read: the Send-only envelope probe was skipped");
+        return;
+    };
+    let scratch = scratch_dir("c18h");
+    // first the helper alone: if that does not compile the probe says nothing
+    let plain = crate::pipeline::compile_output(&ex, &scratch, &helper, "");
+    let c = crate::pipeline::compile_output(&ex, &scratch, &format!("{helper}\n{SEND_ONLY_ENVELOPE_PROBE}"), "");
+    ev.case("helper|send-only-envelope", true);
+    ev.class("helper-probe.send-only-envelope");
+    if plain.ok && !c.ok && !c.timed_out {
+        let d = c.errors.first();
+        let sig = format!("C18 helper:future-not-send-for-a-send-only-envelope:{}", d.map(|d| d.normalised()).unwrap_or_default());
+        route_failure(ev, findings, "not-send", &sig, json!({"helper_probe": true, "detail": d.map(|d| d.message.clone()).unwrap_or_default()}));
+    } else if !plain.ok {
+        ev.class("helper-probe.helper-source-does-not-compile-alone");
+    }
+    let _ = std::fs::remove_dir_all(&scratch);
+}
 
 pub fn run(tier: Tier) -> i32 {
-    soap::run_with(
-        tier,
-        &Cfg {
-            id: "C18",
-            aspect: Aspect::Send,
-            rule: "every generated client of the C05 WSDL profile (all operation shapes: headers, one-way, with and without soapAction, members of every kind incl. restricted simple types). Oracle: rustc type-checks, next to the emitted file, a module that passes the future of every service method and of every free-standing operation function to fn assert_send<T: Send>(T), asserts Send + Sync for every request and response envelope type, and spawns one call per operation on a multi-thread tokio runtime (never polled against a network). Diagnostics located in the assertion module are C18 failures; diagnostics inside the emitted file are reported as uncompilable output. Non-trivial: operation with headers or without output, or >= 2 operations; distinct by file set.",
-            n_quick: 120,
-            n_thorough: 2000,
-        },
-    )
+    let findings = Findings::load();
+    findings.print_fixed("C18");
+    let cfg = Cfg {
+        id: "C18",
+        aspect: Aspect::Send,
+        rule: "every generated client of the C05 WSDL profile (all operation shapes: headers, one-way, with and without soapAction, members of every kind incl. restricted simple types). Oracle: rustc type-checks, next to the emitted file, a module that passes the future of every service method and of every free-standing operation function to fn assert_send<T: Send>(T), asserts Send + Sync for every request and response envelope type, and spawns one call per operation on a multi-thread tokio runtime (never polled against a network). Diagnostics located in the assertion module are C18 failures; diagnostics inside the emitted file are reported as uncompilable output. In addition the helper source is compiled once with a hand-written request envelope that is Send but not Sync (a Cell inside): the futures of both helper functions must still be Send. Non-trivial: operation with headers or without output, or >= 2 operations; distinct by file set.",
+        n_quick: 120,
+        n_thorough: 2000,
+    };
+    let mut ev = Evidence::new(cfg.id, tier, "exploration", cfg.rule);
+    helper_probe(&mut ev, &findings);
+    soap::run_into(&mut ev, &findings, tier, &cfg);
+    ev.finish()
 }
 
 pub fn replay(case: &serde_json::Value) -> i32 {
+    if case["helper_probe"].as_bool() == Some(true) {
+        let findings = Findings { findings: vec![] };
+        let mut ev = Evidence::new("C18", Tier::Quick, "exploration", "replay of the helper probe");
+        helper_probe(&mut ev, &findings);
+        return ev.finish();
+    }
     soap::replay("C18", Aspect::Send, case)
 }
